@@ -6,13 +6,14 @@ Import ListNotations.
 Open Scope N_scope.
 
 Record case17 := Case17 {
-  q_mode : N;                       (* 0 gated schedule, 1 free-running writers+readers, 2 with a tail-side deleter *)
+  q_mode : N;                       (* 0 gated flush, 1 free-running writers+readers, 2 plus a tail-side deleter, 3 gated tail-side delete with one append *)
   q_batch : N;
   q_chain : list hdr;
   q_init : list N;                  (* appended and synced before the concurrent phase *)
   q_queue : list (list N);          (* batches; in channel order for mode 0 *)
   q_gated : list (nat * nat * robs17);   (* (batch index, micro-state index, observation) in schedule order *)
   q_free : list (list robs17);      (* per reader goroutine: its observations in program order *)
+  q_synced : list bool;             (* after a writer's Sync returned: each header it had appended is readable *)
   q_final : probe }.
 
 Definition robs17_eqb (a b : robs17) : bool :=
@@ -38,7 +39,7 @@ Definition agree17 (x : case17) : bool :=
   let c := chain_of (q_chain x) in
   let s0 := init_state c (q_batch x) (q_init x) in
   let q := map (map c) (q_queue x) in
-  if q_mode x =? 2 then true else
+  if 2 <=? q_mode x then true else
   forallb (fun g => match micro_at s0 q (fst (fst g)) (snd (fst g)) with
                     | Some s => robs17_eqb (observe17 s) (snd g)
                     | None => false end) (q_gated x)
@@ -70,7 +71,8 @@ Definition ok17 (x : case17) : bool :=
   && monotone17 None (map snd (q_gated x))
   && forallb (monotone17 None) (q_free x)
   && gap_free (q_final x)
-  && (if q_mode x =? 2 then true
+  && forallb (fun b => b) (q_synced x)
+  && (if 2 <=? q_mode x then true
       else spec_probe_ok c (fold_left spec_append (q_queue x) (spec_append spec0 (q_init x))) (q_final x)).
 
 Definition chk17 (x : case17) : bool * bool * N := (agree17 x, ok17 x, 0).
